@@ -197,3 +197,49 @@ func H_C07_trunk_error_wrapped() {
 	vassert(err != nil, "write-error-swallowed")
 	vassert(errors.Is(err, errTrunk), "trunk-error-not-wrapped")
 }
+
+// H_C11_reopen: a connection id is opened, closed, opened again, and the stale first handle is closed once
+// more (Close is idempotent and must only affect its own connection). A frame for that id then arrives and
+// the trunk ends: the live connection receives the frame and afterwards end-of-file - it is neither cut off
+// from the reader nor left blocked when the mux shuts down (a Read that never returns is reported as a
+// deadlock by the engine).
+//verif:property C11
+//verif:symbytes
+//verif:preempt 0
+//verif:expect-cover done delivered
+func H_C11_reopen() {
+	ta := &envTrunk{}
+	a := rawMux(ta, 4)
+	id := ConnID(nondetUint32())
+	assume(id != 0)
+	L := symPayloadLen(64)
+	p := nondetBytes(L)
+	_, werr := a.write(id, p)
+	vassert(werr == nil, "write-error")
+
+	tb := &envTrunk{splitAt: -1, chunks: ta.writes, eofAtEnd: true}
+	b := rawMux(tb, 4)
+	stale, _ := b.Open(id)
+	stale.Close()
+	live, _ := b.Open(id)
+	vassert(!sameObject(stale, live), "closed-connection-handed-out-again")
+	stale.Close() // second Close of the stale handle
+	b.reader()    // delivers the frame, meets EOF, closes the mux
+	buf := nondetBytes(64)
+	n, err := live.Read(buf)
+	// (once the mux is closed a Read may report the end instead of a queued frame: both outcomes are explored)
+	if err == nil {
+		cover("delivered")
+		vassert(n == L, "frame-length")
+		j := nondetInt()
+		assume(j >= 0)
+		if j < L && n == L {
+			vassert(buf[j] == p[j], "frame-content")
+		}
+		_, err2 := live.Read(buf)
+		vassert(err2 != nil, "read-after-close-succeeds")
+	}
+	_, serr := stale.Read(nondetBytes(8))
+	vassert(serr != nil, "read-on-closed-connection-succeeds")
+	cover("done")
+}
